@@ -20,7 +20,8 @@ case "$DEMO_PATH" in /*) DEMO_PATH=${DEMO_PATH#*/repo/};; esac
 mkdir -p "$WT/$(dirname $DEMO_PATH)"; cp "$DEMO_SRC" "$WT/$DEMO_PATH"
 PKG=./$(dirname $DEMO_PATH)
 TESTS=$(grep -ho 'func Test[A-Za-z0-9_]*' "$DEMO_SRC" | sed 's/func //' | paste -sd'|')
-run_demo() { ( cd $WT && timeout 600 go test -vet=off -count=1 -run "^($TESTS)\$" $PKG 2>&1 | tail -30 ); }
+TAGS=""; grep -q '^//go:build verif' "$DEMO_SRC" && TAGS="-tags verif"   # a demonstration may use the hook points
+run_demo() { ( cd $WT && timeout 600 go test $TAGS -vet=off -count=1 -run "^($TESTS)\$" $PKG 2>&1 | tail -30 ); }
 OUT0=$(run_demo); echo "$OUT0" | grep -q "^ok" || { echo "INVALID demo does not pass without the patch"; echo "$OUT0" | tail -15; exit 1; }
 ( cd $WT && git apply "$D/patch.diff" ) || { echo "INVALID patch does not apply to current HEAD"; exit 1; }
 ( cd $WT && go build ./sugardb/... ./internal/aof/... ./internal/modules/... ./internal/snapshot/... ./internal/raft/... ./internal/eviction/... ./cmd/... ) || { echo "INVALID does not build"; exit 1; }
